@@ -369,7 +369,7 @@ class Headers:
         unknown = nullable - {p[0] for p in params}
         if unknown:
             raise Refuse("function %s: Nullable names %s are not parameters" % (name, sorted(unknown)))
-        return {"name": name, "ret": self.tindex(ret), "params": params}
+        return {"name": name, "ret": self.tindex(ret), "params": params, "variadic": bool(node.get("variadic"))}
 
     # ---- top level
     def walk_top(self):
@@ -680,11 +680,47 @@ def translate():
     return h, types_ast, py, hdr
 
 
+def input_key():
+    """content hash of everything the output depends on (so that an unchanged tree costs nothing)"""
+    hs = hashlib.sha256()
+    files = [os.path.abspath(__file__), os.path.join(PYDIR, "codegen", "generate.py")]
+    inc = os.path.join(INC, "mujoco")
+    for root, _, names in os.walk(inc):
+        files += [os.path.join(root, n) for n in names if n.endswith(".h")]
+    files += [os.path.join(PYDIR, n) for n in ("ast_nodes.py", "enums.py", "structs.py", "functions.py", "__init__.py")]
+    for f in sorted(files):
+        hs.update(f.encode() + b"\0")
+        try:
+            with open(f, "rb") as fh:
+                hs.update(fh.read())
+        except OSError:
+            hs.update(b"<missing>")
+    try:
+        v = subprocess.run(["clang", "--version"], capture_output=True, text=True).stdout
+    except OSError:
+        v = "<no clang>"
+    hs.update(v.encode())
+    return hs.hexdigest()[:32]
+
+
 def main():
     out = os.path.join(VERIF, "lean", "MjProof", "Gen")
     args = sys.argv[1:]
     if "--out" in args:
         out = args[args.index("--out") + 1]
+    key = input_key()
+    jp = os.path.join(out, "IntrospectTables.json")
+    if "--force" not in args and os.path.exists(jp) and all(
+            os.path.exists(os.path.join(out, n)) for n in ("IntrospectHeaders.lean", "IntrospectPython.lean")):
+        try:
+            old = json.load(open(jp))
+            lh = open(os.path.join(out, "IntrospectHeaders.lean")).read()
+            lp = open(os.path.join(out, "IntrospectPython.lean")).read()
+            if old.get("input_key") == key and old.get("table_id") == hashlib.sha256((lh + lp).encode()).hexdigest()[:24]:
+                print("c49_tables: inputs unchanged (key %s), outputs kept -> %s" % (key, out))
+                return
+        except Exception:
+            pass
     try:
         h, types_ast, py, hdr = translate()
     except Refuse as e:
@@ -693,7 +729,7 @@ def main():
     lean_h = emit_headers(h, types_ast)
     lean_p = emit_python(py)
     tid = hashlib.sha256((lean_h + lean_p).encode()).hexdigest()[:24]
-    info = {"table_id": tid, "repo": REPO, "headers": hdr, "python": py}
+    info = {"table_id": tid, "input_key": key, "repo": REPO, "headers": hdr, "python": py}
     write_if_changed(os.path.join(out, "IntrospectTables.json"), json.dumps(info, indent=0) + "\n")
     if "--json-only" not in args:
         write_if_changed(os.path.join(out, "IntrospectHeaders.lean"), lean_h)
